@@ -97,6 +97,13 @@ class Footprints:
         for p, v in sizes:
             env[p] = v
         fp: Dict[str, Set[int]] = {p: set() for p in m.params}
+        self._touches(m.body, env, fp, set(m.params), depth)
+        self.memo[mk] = fp
+        return fp
+
+    def _touches(self, ops: List[Tuple[Any, ...]], env: Dict[str, Any], fp: Dict[str, Set[int]], must_concrete: Set[str],
+                 depth: int = 0) -> None:
+        """add to fp[sym] every bit offset (relative to sym) that the ops touch; sym ranges over the keys of fp."""
 
         def touch(lf: Dict[str, int], extra: int = 0) -> None:
             syms = [k for k in lf if k != '']
@@ -115,7 +122,7 @@ class Footprints:
                 except OpaqueValue:
                     vals.append({'<opaque-value>': 1})
                 except NeedConcrete as nc:
-                    if nc.name in fp:
+                    if nc.name in must_concrete:
                         raise           # a parameter of this macro must be concrete (size parameter)
                     vals.append({'<opaque-value>': 1})      # label arithmetic (a value, not an address that is touched)
             csz: Dict[str, int] = {}
@@ -140,10 +147,10 @@ class Footprints:
             except OpaqueValue:
                 pass
             except NeedConcrete as nc:
-                if nc.name in fp:
+                if nc.name in must_concrete:
                     raise
 
-        for op in m.body:
+        for op in ops:
             t = op[0]
             if t == 'fj':
                 if op[1] is not None and op[1] != 0:
@@ -166,8 +173,22 @@ class Footprints:
                     e2 = dict(env)
                     e2[op[2]] = i
                     do_call(op[3], op[4], e2)
-        self.memo[mk] = fp
-        return fp
+
+    def stmt_touches(self, key: Tuple[str, int], sizes: Tuple[Tuple[str, int], ...], track: Set[str]) -> List[Dict[str, Set[int]]]:
+        """per body statement: bit offsets touched relative to each tracked local label."""
+        m = self.stl.macros[key]
+        env: Dict[str, Any] = dict(self.base)
+        for p in m.params:
+            env[p] = {p: 1}
+        for p, v in sizes:
+            env[p] = v
+        out = []
+        for op in m.body:
+            fp: Dict[str, Set[int]] = {t: set() for t in track}
+            if op[0] != 'label':
+                self._touches([op], env, fp, set(m.params))
+            out.append(fp)
+        return out
 
 
 def doc_extents(m: Macro) -> Dict[str, Set[str]]:
@@ -189,6 +210,51 @@ def doc_extents(m: Macro) -> Dict[str, Set[str]]:
         for nm, E in re.findall(r'(?<![\w.*])([A-Za-z_]\w*)\[:([^\]]+)\]', body):
             if nm in m.params:
                 res.setdefault(nm, set()).add(E.strip())
+    return res
+
+
+_EFFECT = re.compile(r'^(?P<lhs>[^=!<>]*?[\w\]\}])\s*(?P<op>:=|\+\+|--|(?:<<|>>|[-+*/%^|&])?=(?!=))\s*(?P<rhs>.*)$')
+
+
+def doc_effects(m: Macro) -> Dict[str, str]:
+    """documented effect of a macro on each parameter, from the formula lines of its doc block (the contract):
+    'assign'  the first formula line naming p has p on the left of `=` / `:=` and not on the right (full overwrite),
+    'update'  p is on the left of an in-place operator (`+=`, `^=`, `++`, ..) or on both sides,
+    'read'    p is named only on right-hand sides of formula lines.
+    parameters the formulas never name are absent (prose-only contracts and conditions are not classified)."""
+    res: Dict[str, str] = {}
+    block_indent: Optional[int] = None
+    for line in m.doc:
+        body = line[2:]
+        if not body.startswith('   ') or body.lstrip().startswith('@'):
+            block_indent = None
+            continue
+        ind = len(body) - len(body.lstrip())
+        text = body.strip()
+        if block_indent is not None and ind > block_indent:
+            pass_block = True           # case lines under `jump to:` - conditions, not assignments
+        else:
+            pass_block, block_indent = False, None
+        if text.endswith(':'):
+            block_indent = ind
+        text = re.sub(r'^like:\s*', '', text)
+        text = re.sub(r'//.*$', '', text).strip().rstrip(';')
+        ids = lambda t: set(re.findall(r'(?<![\w.])([A-Za-z_]\w*)', t))
+        em = None if pass_block or re.match(r'(if|while|for|else)\b', text) else _EFFECT.match(text)
+        if em:
+            lhs, rhs = ids(em.group('lhs')) & set(m.params), ids(em.group('rhs')) & set(m.params)
+            # names inside an extent `[:n]` on the left are read, not written
+            lhs_sizes = set()
+            for ext in re.findall(r'\[[^\]]*\]', em.group('lhs')):
+                lhs_sizes |= ids(ext)
+            written = lhs - lhs_sizes
+            for q in written:
+                if q not in res:
+                    res[q] = 'assign' if em.group('op') == ':=' or (em.group('op') == '=' and q not in rhs) else 'update'
+                elif res[q] == 'read':
+                    res[q] = 'update'
+            for q in (rhs | (lhs & lhs_sizes)) - written:
+                res.setdefault(q, 'read')
     return res
 
 
@@ -324,6 +390,183 @@ def rule_extent(rep: Report, stl: Stl, prop: str, files: List[str], floor: int, 
             for E in Es:
                 if (key[0], key[1], p, E) not in known:
                     rep.uncovered.append(f'{key[0]}/{key[1]}:{p}[:{E}] (documented extent not in the frozen list)')
+
+
+# ---------------------------------------------------------------- FJ.SCRATCH (re-entrancy of macro-local scratch cells)
+
+# declarations of a data cell WITHOUT an explicit initial value: (macro, arity) -> index of the size argument (None: one cell)
+SCRATCH_DECLS: Dict[Tuple[str, int], Optional[int]] = {('bit.bit', 0): None, ('bit.vec', 1): 0, ('hex.hex', 0): None, ('hex.vec', 1): 0}
+
+
+def scratch_cells(m: Macro) -> Dict[str, int]:
+    """local label -> index of its declaration statement, for labels declared as value-less data cells."""
+    out: Dict[str, int] = {}
+    for i, st in enumerate(m.body[:-1]):
+        nxt = m.body[i + 1]
+        if st[0] == 'label' and nxt[0] == 'call' and (nxt[1], len(nxt[2])) in SCRATCH_DECLS:
+            short = st[1].split('.')[-1]
+            if short in m.local:
+                out[short] = i + 1
+    return out
+
+
+# confirmed by reading: cells that are updated in place without a covering assignment, and why that is sound
+SCRATCH_EXCEPTIONS: Dict[Tuple[str, int, str, str], str] = {
+    ('hex.div', 7, '_b', 'covered'): 'the top hex of _b is zero at load, `shl_hex nb+1, _b` shifts into it and the four `shr_bit nb+1, _b` of '
+                                     'the same iteration shift it out again: it is zero again whenever the macro is left',
+}
+
+
+def scratch_blocks(m: Macro, env: Dict[str, Any]) -> Dict[str, Tuple[int, int, int]]:
+    """label -> (block id, first cell of the label in block coordinates, declared cells). consecutive (label, value-less
+    declaration) pairs are laid out back to back, so `{_r:_a}` style spill-over into the next label is modelled."""
+    cells = scratch_cells(m)
+    out: Dict[str, Tuple[int, int, int]] = {}
+    block, base, prev_end = -1, 0, -10
+    for L, decl in sorted(cells.items(), key=lambda t: t[1]):
+        op = m.body[decl]
+        si = SCRATCH_DECLS[(op[1], len(op[2]))]
+        size = 1 if si is None else conc(ev(op[2][si], env))
+        if decl - 1 != prev_end + 1:          # the label statement must directly follow the previous declaration
+            block, base = block + 1, 0
+        out[L] = (block, base, size)
+        base += size
+        prev_end = decl
+    return out
+
+
+def rule_scratch(rep: Report, stl: Stl, prop: str, files: List[str], floor: int, w: int = 64) -> None:
+    rule = f'{prop}.SCRATCH'
+    rep.rule(rule, 'macro code is re-executed (loops, functions), so a macro-local scratch cell keeps its last value: for every local '
+             'label declared as a value-less data cell, (init-first) the first statement of the macro body that touches it must not be '
+             'documented as an in-place update of it, and - when that first statement is a documented plain assignment - (covered) every '
+             'later statement that may write it (documented update, or no formula for that parameter) touches only cells that an '
+             'earlier plain assignment covers; cells are computed footprints for size parameters in {4,5,8}, adjacent declarations are '
+             'laid out back to back, effects come from the callee doc formulas (the contract); exceptions are listed by name', floor)
+    fpx = Footprints(stl, w)
+    dw = 2 * w
+    used_exceptions: Set[Tuple[str, int, str, str]] = set()
+    for key, m in sorted(stl.macros.items()):
+        if m.file not in files:
+            continue
+        cells = scratch_cells(m)
+        if not cells:
+            continue
+        names = size_params(fpx, key)
+        if names is None:
+            rep.uncovered.append(f'{key[0]}/{key[1]}: scratch cells {sorted(cells)} (footprint not computable)')
+            continue
+        verdict: Dict[Tuple[str, str], List[str]] = {}
+        evaluated = 0
+        for combo in itertools.product(*[EXTRA_SIZES.get(nm, SIZES) for nm in names]):
+            sz = tuple(zip(names, combo))
+            pre = PRECONDITIONS.get(key)
+            if pre is not None and not pre(dict(sz)):
+                continue
+            env: Dict[str, Any] = dict(fpx.base)
+            for q in m.params:
+                env[q] = {q: 1}
+            env.update(dict(sz))
+            try:
+                touches = fpx.stmt_touches(key, sz, set(cells))
+                layout = scratch_blocks(m, env)
+            except (NeedConcrete, OpaqueValue, AnalysisError, ZeroDivisionError):
+                continue
+            evaluated += 1
+            owner: Dict[Tuple[int, int], str] = {}
+            for L, (b, base, size) in layout.items():
+                for c in range(size):
+                    owner[(b, base + c)] = L
+            assigned: Set[Tuple[int, int]] = set()
+            first_cls: Dict[str, Optional[str]] = {}
+            for idx, op in enumerate(m.body):
+                if op[0] == 'label' or idx in cells.values():
+                    continue
+                classes = _effect_on(stl, op, set(cells), env)
+                for via in sorted(cells):
+                    b, base, _size = layout[via]
+                    G = {(b, base + o // dw) for o in touches[idx][via]}
+                    if not G:
+                        continue
+                    cls = classes.get(via)
+                    for L in sorted({owner[g] for g in G if g in owner}):
+                        if L not in first_cls:
+                            first_cls[L] = cls
+                            verdict.setdefault((L, 'init-first'), [])
+                            if cls == 'update':
+                                verdict[(L, 'init-first')].append(f'{dict(sz)}: first touched by line {op[-1]} `{_stmt_name(op)}`, which updates it in place')
+                            if cls == 'assign':
+                                verdict.setdefault((L, 'covered'), [])
+                    if cls == 'assign':
+                        assigned |= G
+                    elif cls != 'read':
+                        for g in sorted(G - assigned):
+                            L = owner.get(g)
+                            if L is not None and first_cls.get(L) == 'assign':
+                                verdict[(L, 'covered')].append(f'{dict(sz)}: line {op[-1]} `{_stmt_name(op)}` may write cell {g[1] - layout[L][1]} of {L}, '
+                                                               f'which no earlier assignment covers')
+            for L, c in first_cls.items():
+                if c not in ('assign', 'update'):
+                    verdict.setdefault((L, 'not-judged'), [])
+        if not evaluated:
+            rep.uncovered.append(f'{key[0]}/{key[1]}: scratch cells {sorted(cells)} (no evaluable instantiation)')
+            continue
+        for (L, what), bad in sorted(verdict.items()):
+            if what == 'not-judged':
+                rep.uncovered.append(f'{key[0]}/{key[1]}:{L} (first use has no documented assignment formula for it)')
+                continue
+            exc = (key[0], key[1], L, what)
+            if bad and exc in SCRATCH_EXCEPTIONS:
+                used_exceptions.add(exc)
+                rep.ok(rule, f'{key[0]}/{key[1]}:{L}:{what}', f'listed exception: {SCRATCH_EXCEPTIONS[exc]}', f'{m.file}:{m.line} {m.name}')
+                continue
+            rep.check(not bad, rule, f'{key[0]}/{key[1]}:{L}:{what}', bad[0] if bad else f'{evaluated} instantiations',
+                      f'{m.file}:{m.line} {m.name}',
+                      expected='assigned before it is updated; every possibly-written cell covered by an earlier assignment')
+    for exc in SCRATCH_EXCEPTIONS:
+        m = stl.macros.get((exc[0], exc[1]))
+        if m is not None and m.file in files and exc not in used_exceptions:
+            rep.notes.append(f'{rule}: the listed exception {exc} no longer applies (remove it after review)')
+
+
+def _stmt_name(op: Tuple[Any, ...]) -> str:
+    return {'call': lambda: f'{op[1]}/{len(op[2])}', 'rep': lambda: f'rep {op[3]}/{len(op[4])}'}.get(op[0], lambda: op[0])()
+
+
+def _effect_on(stl: Stl, op: Tuple[Any, ...], labels: Set[str], env: Dict[str, Any]) -> Dict[str, Optional[str]]:
+    """documented effect class (assign / update / read / None = no formula) of one statement on each local label it names."""
+    if op[0] == 'call':
+        name, args, env2 = op[1], op[2], env
+    elif op[0] == 'rep':
+        name, args = op[3], op[4]
+        env2 = dict(env)
+        env2[op[2]] = 0
+    else:
+        return {}
+    cal = stl.macros.get((name, len(args)))
+    if cal is None:
+        return {}
+    eff = doc_effects(cal)
+    per: Dict[str, List[Optional[str]]] = {}
+    for q, a in zip(cal.params, args):
+        try:
+            lf = ev(a, env2)
+        except (OpaqueValue, NeedConcrete):
+            continue
+        syms = [k for k in lf if k != '']
+        if len(syms) == 1 and syms[0] in labels and lf[syms[0]] == 1:
+            per.setdefault(syms[0], []).append(eff.get(q))
+    out: Dict[str, Optional[str]] = {}
+    for L, classes in per.items():
+        if all(c == 'assign' for c in classes):
+            out[L] = 'assign'
+        elif any(c == 'update' for c in classes):
+            out[L] = 'update'
+        elif all(c == 'read' for c in classes):
+            out[L] = 'read'
+        else:
+            out[L] = None
+    return out
 
 
 # ---------------------------------------------------------------- FJ.LUT (C04)
